@@ -151,6 +151,61 @@ def run(tier, seed):
                     if key is None and agree and all('ANYHL7SEGMENT' in e for e in st):
                         key = 'D2:%s:ANYHL7SEGMENT' % v      # the placeholder row of the tables: no instance can hold it
                     chk.fail(key, {'clause': 'instance-validates-structurally', 'errors': st[:5], **rep}, rep)
+    # determinism across one process: the same structure NAME exists in several versions with different contents; instances of all its
+    # versions parsed one after the other in ONE process (ascending, then descending versions) must give what each gives alone —
+    # a memo of the group search keyed on names without the version (seed C08-h) shows here, and only here
+    byname = {}
+
+    def group_rows(ref, out, d=0):
+        if not (gen.is_seq(ref) and len(ref) >= 2 and gen.is_seq(ref[1])) or d > 6:
+            return
+        for r in ref[1]:
+            if gen.is_seq(r) and len(r) == 4 and r[3] == 'GRP':
+                kids = tuple(x[0] for x in r[1][1] if gen.is_seq(x) and len(x) == 4) if gen.is_seq(r[1]) and len(r[1]) >= 2 and gen.is_seq(r[1][1]) else None
+                out.setdefault(r[0], set()).add(kids)
+                group_rows(r[1], out, d + 1)
+    for v in VERSIONS:
+        lib = hl7apy.load_library(v)
+        for mt in gen.MsgGen(rng, version=v).structures():
+            byname.setdefault(mt, {})[v] = lib.MESSAGES[mt]
+    # names under which some group holds different children in different versions
+    multi = []
+    for mt, d in sorted(byname.items()):
+        out = {}
+        for v in d:
+            group_rows(d[v], out)
+        if len(d) > 1 and any(len(x) > 1 for x in out.values()):
+            multi.append(mt)
+    pick = multi
+    dcases = []
+    for mt in sorted(pick):
+        for v in [x for x in VERSIONS if x in byname[mt]]:
+            g = gen.MsgGen(rng, version=v)
+            for style in (('all',) if tier == 'quick' else ('all', 'random')):
+                try:
+                    t, der, names = g.message(mt, style, rich=False)
+                except Exception:  # noqa
+                    continue
+                dcases.append((mt, v, t))
+    djobs = [(c[2], False, True) for c in dcases]
+    alone = vlib.pmap(impl.msg_full, djobs, chunk=1)
+    dmo = vlib.run_driver(['MSG T T 2.5 1 %s' % vlib.hexs(j[0]) for j in djobs])
+    chk.correspond('same-named structures of several versions: parse_message(text).to_er7() + group tree vs the model', djobs, [f[0] for f in alone], dmo,
+                   show=lambda j: {'text': j[0], 'find_groups': j[2]})
+    order = list(range(len(dcases)))
+    vkey = lambda i: (dcases[i][0], VERSIONS.index(dcases[i][1]))
+    seq = sorted(order, key=vkey) + sorted(order, key=lambda i: (dcases[i][0], -VERSIONS.index(dcases[i][1])))
+    for i in seq:
+        chk.evals += 1
+        got = impl.msg_full(djobs[i])
+        if got[0] != alone[i][0]:
+            mt, v, t = dcases[i]
+            rep = {'api': 'parse_message(text, TOLERANT, find_groups=True) after instances of the same structure name in other versions were parsed in the same process',
+                   'version': v, 'structure': mt, 'text': t,
+                   'parsed_before': [{'version': dcases[k][1], 'text': dcases[k][2]} for k in seq[:seq.index(i)] if dcases[k][0] == mt][-6:]}
+            chk.fail(None, {'clause': 'deterministic: the same text parsed again gives the same tree', 'alone': alone[i][0][-300:], 'in_sequence': got[0][-300:], **rep}, rep)
+            break
+    chk.dist['same_name_other_version_instances'] = len(dcases)
     chk.dist['result_kinds'] = kinds
     chk.dist['instances'] = n
     chk.exhaustive = tier != 'quick'
